@@ -81,6 +81,7 @@ def run_case(args):
         return dict(i=i, incon="could not craft start file")
     o["InitialDistFile"] = os.path.join(wd, "start.h5")
     o["output"] = "out.h5"
+    prog.sprinkle(core.Rng("c03nuisance", ctx.seed, i), o, wd=wd)       # options that must not matter to the centroid
     xdg = pool.get()
     try:
         res = prog.run_inovesa("rel", o, wd, xdg, timeout=600)
